@@ -23,7 +23,8 @@ halt-clear strobe being those of the whole-device model's control endpoint.
 2. `cycle_ghost_eq`: the ghost history (`acked`, `delivered`, `produced`, `kept`, …) computed from the CYCLE-LEVEL wires
    (ACK requests, consumer transfers, producer bytes accepted, NAK / beats / zero-length packets) is the ghost history of
    the event-level run.
-3. `rx_in_order_cycles`, `tx_in_order_cycles`: the transfer theorems.
+3. `rx_in_order_cycles`, `tx_in_order_cycles`: the transfer theorems; `delivered_is_stream`: `delivered` is the payload
+   sequence of ALL consumer transfers of the cycle-level run.
 -/
 set_option linter.unusedSimpArgs false
 set_option linter.unusedVariables false
@@ -510,6 +511,83 @@ theorem tx_exactly_once_cycles (c : FullConfig) (hc : IsSerial c) (ha : IsAcm c)
   rw [cycle_ghost_eq c hc ha h hl] at hn ⊢
   exact tx_exactly_once c hc (aevs h) hacks hn
 
+/-! ### `delivered` is the byte stream the cycle-level consumer saw -/
+
+theorem xfers_append (a b : List C12Out.Wire) : xfers (a ++ b) = xfers a ++ xfers b := by
+  induction a with
+  | nil => rfl
+  | cons w ws ih => cases w <;> simp [xfers, ih]
+
+theorem xfers_outWiresOf (r : Resp × Delivery) : xfers (outWiresOf r) = r.2.items := rxObs_items r
+
+theorem ghostStep_delivered (s : FullState) (g : Ghost) (a : AEvent) (o : Obs) :
+    (ghostStep s g a o).delivered = g.delivered ++
+      (match a.ev with
+       | .consume ep _ => if ep = 4 then bytesOf o.delivery.items else []
+       | _ => []) := by
+  obtain ⟨ev, got⟩ := a
+  cases ev with
+  | consume ep n => by_cases he : ep = 4 <;> simp [ghostStep, he]
+  | handshake pid => simp [(ghost_hs_rx s g got pid o).2.2]
+  | token pid addr ep =>
+    simp only [ghostStep]
+    repeat' split
+    all_goals simp
+  | data pid p ok =>
+    simp only [ghostStep]
+    repeat' split
+    all_goals simp
+  | produce ep bytes last =>
+    simp only [ghostStep]
+    repeat' split
+    all_goals simp
+  | _ => simp [ghostStep]
+
+/-- the rx endpoint hands entries to the consumer in `consume 4` events only -/
+theorem rx_items_only_consume (b : OutEp) (x : Ctx) (ev : HostEvent) (h : ∀ n, ev ≠ .consume 4 n) :
+    (epStep ep4o (.sOut b) x ev).2.2.items = [] := by
+  cases ev with
+  | consume ep n =>
+    have : ep ≠ ep4o.num := fun he => h n (by rw [he]; rfl)
+    simp [epStep, this]
+  | _ => simp only [epStep] <;> (repeat' split) <;> rfl
+
+theorem runG_delivered (c : FullConfig) (hc : IsSerial c) (h : List AEvent) : ∀ (s : FullState) (g : Ghost), ShapeOk s →
+    (runG c s g h).2.delivered = g.delivered ++
+      bytesOf (xfers ((epOuts c ep4o (fun s => .sOut (rxEp s)) s (h.map (·.ev))).map outWiresOf).flatten) := by
+  induction h with
+  | nil => intro s g _; simp [runG, epOuts, xfers, bytesOf]
+  | cons ae rest ih =>
+    intro s g hok
+    obtain ⟨a, b, d, hs⟩ := hok
+    have hrx : rxEp s = b := by unfold Shape at hs; simp [rxEp, hs]
+    simp only [runG, List.map_cons, epOuts, List.flatten_cons, xfers_append, bytesOf_append, xfers_outWiresOf, hrx]
+    rw [ih _ _ (shapeOk_step c hc s ae.ev ⟨a, b, d, hs⟩), ghostStep_delivered, List.append_assoc]
+    congr 2
+    obtain ⟨ev, got⟩ := ae
+    by_cases hcons : ∃ n, ev = .consume 4 n
+    · obtain ⟨n, rfl⟩ := hcons
+      have hdel : (Full.step c s (.consume 4 n)).2.delivery = { count := (b.fifo.take n).length, items := b.fifo.take n } := by
+        rw [step_delivery c hc s a b d hs]
+        simp [epStep, ep4o, firstDelivery_mid]
+      simp [hdel, epStep, ep4o]
+    · have hn : ∀ n, ev ≠ .consume 4 n := fun n he => hcons ⟨n, he⟩
+      rw [rx_items_only_consume b _ ev hn]
+      cases ev with
+      | consume ep n =>
+        have : ep ≠ 4 := fun he => hn n (by rw [he])
+        simp [this, bytesOf]
+      | _ => simp [bytesOf]
+
+/-- **`delivered` is the byte stream of the cycle-level rx endpoint**: the payloads of ALL the transfers
+`stream.valid ∧ stream.ready` of the whole cycle-level run, in order. -/
+theorem delivered_is_stream (c : FullConfig) (hc : IsSerial c) (ha : IsAcm c) (h : List CEvent) (hl : CycLegal c h) :
+    (cycGhost c h).delivered = bytesOf (xfers (rxWires c h).flatten) := by
+  obtain ⟨_, _, _, _, hwr⟩ := acm_rx_cycles c hc ha (rxHist h) hl.2
+  rw [cycle_ghost_eq c hc ha h hl, rxWires, hwr, (hist_evs h).1,
+    runG_delivered c hc (aevs h) (Full.init c) {} (shapeOk_init c hc)]
+  rfl
+
 /-! ## Non-vacuity: a history with everything in it, cycle by cycle
 
 Device at address 0 (not yet enumerated).  OUT 4: DATA0 `[1,2,3]` (ACK), the same packet again (ACK, dropped), the
@@ -553,6 +631,8 @@ example : (rxWires acmCfg demoCyc).take 5 =
     [[], [.ack], [], [.ack], [.xfer (1, true, false), .xfer (2, false, false)]] ∧
     ((txWires acmCfg demoCyc).drop 9).take 2 =
     [[.acc, .acc], [.beat 10 true false false, .beat 11 false true false]] := by decide +kernel
+
+example : bytesOf (xfers (rxWires acmCfg demoCyc).flatten) = [1, 2, 3, 4, 5] := by decide +kernel
 
 example : (outCycles acmCfg rx4 (Full.init acmCfg) (rxHist demoCyc)).length = 228 ∧
     (inCycles acmCfg tx4 (Full.init acmCfg) {} (txHist demoCyc)).length = 108 := by decide +kernel
